@@ -2,8 +2,10 @@
 (***************************************************************************)
 (* Recorded export / import / re-export round trips of the real library    *)
 (* (harness/h_io.cpp) validated against Serial:                            *)
-(*  - every call the exporter makes on the transport is the next call of   *)
-(*    Serial!Export(type, params), property lines carry the object's own   *)
+(*  - the exported bytes, tokenised independently of the writer's call     *)
+(*    grouping (text lines; one run per maximal binary stretch), are the   *)
+(*    canonical form of Serial!Export(type, params): same sections, same   *)
+(*    binary lengths, same leading tags; property lines carry the object's *)
 (*    field values exactly as the reader will parse them (reals included); *)
 (*  - importing consumes exactly the bytes of the object, leaves the       *)
 (*    stream good, and yields an object equal field for field (content     *)
@@ -23,7 +25,7 @@ SameReal(a, b) == a.m = b.m /\ a.e = b.e /\ a.neg = b.neg
 TSeqBegin == /\ Ev.e = "SeqBegin" /\ cur = NoObj
              /\ objs' = <<>> /\ off' = 0 /\ imp' = 1 /\ tr' = Ev.tr /\ UNCHANGED <<exp, pos, cur, bytes>>
 TExport == /\ Ev.e = "Export" /\ cur = NoObj /\ Ev.ty \in Types
-           /\ exp' = ExportSegs(Ev.ty, Ev.p) /\ pos' = Start(ExportSegs(Ev.ty, Ev.p)) /\ cur' = Ev /\ bytes' = 0 /\ UNCHANGED <<objs, off, imp, tr>>
+           /\ exp' = Canon(ExportSegs(Ev.ty, Ev.p)) /\ pos' = Start(Canon(ExportSegs(Ev.ty, Ev.p))) /\ cur' = Ev /\ bytes' = 0 /\ UNCHANGED <<objs, off, imp, tr>>
 TW == /\ Ev.e = "W" /\ cur # NoObj /\ ~AtEnd(exp, pos)
       /\ LET x == CallAt(exp, pos) IN
            /\ Ev.c = x.c /\ Ev.s = x.s
